@@ -9,7 +9,7 @@ tmp=$(mktemp -d /tmp/vt-XXXXXX)
 git -C /repo worktree add -q --detach "$tmp/repo" HEAD || exit 2
 cleanup() { git -C /repo worktree remove --force "$tmp/repo" >/dev/null 2>&1; rm -rf "$tmp"; }
 trap cleanup EXIT
-if ! git -C "$tmp/repo" apply "$patch"; then echo "PATCH-DOES-NOT-APPLY $patch"; exit 2; fi
+if ! git -C "$tmp/repo" apply "$patch" 2>/dev/null && ! git -C "$tmp/repo" apply -C1 --recount "$patch" 2>/dev/null && ! (cd "$tmp/repo" && patch -p1 -F3 --no-backup-if-mismatch < "$patch" >/dev/null); then echo "PATCH-DOES-NOT-APPLY $patch"; exit 2; fi
 suite=$(cd "$tmp/repo" && /venv/bin/python -m pytest -q -p no:cacheprovider 2>&1 | tail -1)
 echo "suite: $suite"
 for id in "$@"; do
